@@ -13,9 +13,14 @@ GNU = ["gnu++14", "gnu++20"]
 
 
 def build(std="c++14"):
+    """std may carry the char-signedness flavour: "c++14,-funsigned-char" (plain char unsigned, as on ARM / PowerPC Linux)"""
     if std == "c++14":
         return vlib.compile_cxx(SRC, "c15", std="c++14", opt="-O2", san="none")
-    return vlib.compile_cxx(SRC, "c15-" + std.replace("+", "x"), std=std, opt="-O2", san="none", defines=['C15_TAG="[%s]"' % std])
+    base, _, flag = std.partition(",")
+    return vlib.compile_cxx(SRC, "c15-" + std.replace("+", "x").replace(",", ""), std=base, opt="-O2", san="none", defines=['C15_TAG="[%s]"' % std], flags=[flag] if flag else [])
+
+
+UCHAR = ["c++14,-funsigned-char", "c++20,-funsigned-char"]
 
 
 def build_wide(std):
@@ -48,11 +53,13 @@ def _lit(cxx, signed, bits, v):
     return "static_cast<%s>(%d%s)" % (cxx, v, "ULL" if not signed else "LL")
 
 
-def constexpr_cases(wide=False):
+def constexpr_cases(wide=False, uchar=False):
     """Every function x ordered type pair x sign/extreme class of both operands: (case id, static_assert line).
     wide: the pairs that involve a 128-bit type (GNU dialects only)."""
     cases = []
     all_types = TYPES + (TYPES128 if wide else [])
+    if uchar:   # -funsigned-char: plain char is an unsigned 8-bit type
+        all_types = [(n, False if n == "char" else sg, b, c) for (n, sg, b, c) in all_types]
     for (tn, ts, tb, tc) in all_types:
         for (un, us, ub, uc) in all_types:
             if wide and tb != 128 and ub != 128:
@@ -67,17 +74,17 @@ def constexpr_cases(wide=False):
     return cases
 
 
-def constexpr_part(ctx, only=None, wide=False):
+def constexpr_part(ctx, only=None, wide=False, uchar=False):
     """Usable in constant expressions: one generated TU with one static_assert per case and line; every failing line is a violation."""
     import subprocess
-    cases = constexpr_cases(wide)
+    cases = constexpr_cases(wide, uchar)
     if only is not None:
         cases = [c for c in cases if c[0] == only]
         if not cases:
             return
     gen = os.path.join(vlib.VERIF, "build", "c15gen")
     os.makedirs(gen, exist_ok=True)
-    src = os.path.join(gen, "constexpr_cases%s%s.cpp" % ("_wide" if wide else "", "" if only is None else "_one"))
+    src = os.path.join(gen, "constexpr_cases%s%s%s.cpp" % ("_wide" if wide else "", "_uchar" if uchar else "", "" if only is None else "_one"))
     head = ["#include <xtl/xcompare.hpp>", "#include <cstdint>", "#include <limits>"]
     with open(src, "w") as f:
         f.write("\n".join(head) + "\n" + "\n".join(c[1] for c in cases) + "\nint main() { return 0; }\n")
@@ -85,10 +92,13 @@ def constexpr_part(ctx, only=None, wide=False):
     configs = [("g++", "c++14"), ("g++", "c++17"), ("g++", "c++20"), ("clang++", "c++14"), ("clang++", "c++17"), ("clang++", "c++20")]
     if wide:
         configs = [("g++", "gnu++14"), ("g++", "gnu++20"), ("clang++", "gnu++14")]
+    if uchar:
+        configs = [("g++", "c++14"), ("clang++", "c++17"), ("g++", "c++20")]
+    extra = ["-funsigned-char"] if uchar else []
 
     def one(cfg):
         cxx, std = cfg
-        r = subprocess.run([cxx, "-std=" + std, "-fsyntax-only", "-ferror-limit=0" if cxx == "clang++" else "-fmax-errors=0", "-I" + vlib.INCLUDE, src],
+        r = subprocess.run([cxx, "-std=" + std] + extra + ["-fsyntax-only", "-ferror-limit=0" if cxx == "clang++" else "-fmax-errors=0", "-I" + vlib.INCLUDE, src],
                            stdout=subprocess.PIPE, stderr=subprocess.PIPE, text=True)
         bad = {}
         for line in r.stderr.splitlines():
@@ -114,14 +124,15 @@ def constexpr_part(ctx, only=None, wide=False):
         fn, pair, cls = cid.split("/")
         wrong = "non-constant" not in lst[0][1] and "not a constant" not in lst[0][1] and "constant expression" not in lst[0][1] and "static assertion failed" in lst[0][1].replace("static_assert failed", "static assertion failed")
         kind = "wrong-value-at-compile-time" if wrong else "not-a-constant-expression"
-        ctx.violation("C15/constexpr/%s/%s/%s/%s" % (fn, pair, cls, kind),
-                      "%s must be usable in a constant expression and yield %s; %s: %s (%d configuration(s))" % (call, exp, lst[0][0], lst[0][1], len(lst)),
-                      args=["--constexpr-case", cid])
+        ctx.violation("C15/constexpr%s/%s/%s/%s/%s" % ("[-funsigned-char]" if uchar else "", fn, pair, cls, kind),
+                      "%s%s must be usable in a constant expression and yield %s; %s: %s (%d configuration(s))" % ("[-funsigned-char] " if uchar else "", call, exp, lst[0][0], lst[0][1], len(lst)),
+                      args=["--constexpr-case-uchar" if uchar else "--constexpr-case", cid])
 
 
 def run(ctx):
     constexpr_part(ctx)
     constexpr_part(ctx, wide=True)
+    constexpr_part(ctx, uchar=True)
     binary = build()
     full_bits = "24" if ctx.tier == "quick" else "32"
     n = 121 if ctx.tier == "thorough" else 16
@@ -133,6 +144,10 @@ def run(ctx):
     fb2, n2 = ("16", 4) if ctx.tier == "quick" else (full_bits, 32)
     for d, b in zip(DIALECTS, others):
         jobs += [(lambda k=k, b=b, d=d: ctx.run_harness(b, ["--shard", str(k), str(n2), "--full-bits", fb2], tag="c15-" + d)) for k in range(n2)]
+    # plain char unsigned (-funsigned-char; the default on ARM / PowerPC Linux): int8_t is still signed char, char is not
+    ub = vlib.parallel([(lambda d=d: build(d)) for d in UCHAR])
+    for d, b in zip(UCHAR, ub):
+        jobs += [(lambda k=k, b=b, d=d: ctx.run_harness(b, ["--shard", str(k), str(n2), "--full-bits", fb2], tag="c15-" + d)) for k in range(n2)]
     wides = vlib.parallel([(lambda d=d: build_wide(d)) for d in GNU])
     jobs += [(lambda b=b, d=d: ctx.run_harness(b, [], tag="c15-wide-" + d)) for d, b in zip(GNU, wides)]
     vlib.parallel(jobs)
@@ -141,6 +156,7 @@ def run(ctx):
                 "with boundary = {min,min+1,-1,0,1,2,max-1,max, +-2^k-1, +-2^k, +-2^k+1 : k in 7,8,15,16,31,32,63}; oracle = comparison in __int128. "
                 "non-trivial = value pairs on which the builtin ==, < or > on the promoted operands differs from the mathematical answer. "
                 "DIALECTS: the same enumeration built as C++17 and C++20 (quick: all pairs of 8-bit types exhaustively + boundary products). "
+                "CHAR SIGNEDNESS: the same enumeration (dialect bounds) and the constant-expression cases built with -funsigned-char (plain char unsigned, int8_t still signed) as C++14 and C++20. "
                 "128-BIT: in the GNU dialects (gnu++14, gnu++20) __int128 / unsigned __int128 paired with every type and each other over a boundary alphabet "
                 "(min, max, 0, +-1, +-2^k +-{0,1,5} for k up to 127), oracle = comparison of (sign, 128-bit magnitude)" % full_bits)
     ctx.assumptions += ["__int128 comparison is the reference", "bool, wchar_t, char16_t/char32_t are not in the type alphabet",
@@ -149,6 +165,9 @@ def run(ctx):
 
 
 def replay(ctx, rec):
+    if rec["args"] and rec["args"][0] == "--constexpr-case-uchar":
+        constexpr_part(ctx, only=rec["args"][1], uchar=True)
+        return
     if rec["args"] and rec["args"][0] == "--constexpr-case":
         constexpr_part(ctx, only=rec["args"][1])
         constexpr_part(ctx, only=rec["args"][1], wide=True)
